@@ -3,7 +3,7 @@ from registry_common import COMMON_ASSUME
 ENTRY = dict(
         title="Callback filters deliver what they promise over every value sequence",
         design_ref="DESIGN.md section 6 / C20",
-        prop_modules=["C20", "C20F64", "C20Table"],
+        prop_modules=["C20", "C20F64", "C20F64Pin", "C20Table"],
         technique="Lean 4 theorems by induction over ALL call lists (each filter a Mealy machine over values and clock readings) "
                   "+ correspondence with the real filter objects under a patched time.monotonic + Lean judge C20.spec on implementation deliveries",
         level_text=(
@@ -20,7 +20,7 @@ ENTRY = dict(
             "The machines are tied to filters.py by running both on generated call sequences (every filter, every ordered pair chained, "
             "all value kinds incl. the string 'undefined', Parameter objects updated in place)."),
         level_note="Trusted: Lean kernel; filter machines <-> filters.py tie is differential; binary64 arithmetic is exact on the generated numbers "
-                   "(multiples of 1/16 below 10^6), decimal inputs exactly 0.1 apart are modelled (abs_tol compare) but not exercised.",
+                   "(multiples of 1/16 below 10^6); the change test on arbitrary doubles is the exact binary64 model of math.isclose with the tolerances read from the source (C20F64, C20F64Pin).",
         clauses={
             "on_change: first value, then exactly the values differing from the last delivered": "theorem (onChange_snoc, onChange_first, onChange_num)",
             "debounce: delivered once differing for the configured number of consecutive calls": "theorem (debounce_snoc, debounce_delivers_iff)",
@@ -33,15 +33,24 @@ ENTRY = dict(
             "chains of two filters": "theorem (chain_delivered, chain_throttle_spacing, holds_chain)",
             "tolerance 0.1 = source constant": "theorem over the translated constant (tolerance_is_one_tenth)",
             "values are snapshots: a container changed in place by its owner and passed again as the same object": "correspondence (mode `inplace`: ONE list / dict object, empty when first delivered or cleared later, singleton, nested list of lists / dict of lists, changed by clear / append / del / item and slice assignment and passed again; every filter and chains; the model sees the content at the time of each call). Flat containers: holds; an INNER container changed in place: open finding F10 (shallow copy)",
+            "a live Parameter changed by its owner between deliveries (Parameter.update by a report, the real Parameter.set() by the client)": "correspondence (section setapi: one real Number parameter on a stub device, "
+                "set() run as a task up to its first sleep / through its retries, reports confirming, stale or moving the bounds; on_change / debounce / custom; machine and judge C20.spec on the parameter states observed at the calls)",
             "filters.py behaves as the machines": "correspondence (generated sequences; judge C20.spec on every implementation run)",
-            "float tolerance boundary (inputs exactly 0.1 apart in decimal)": "modelled, not exercised",
+            "numbers as binary64 doubles, every magnitude": "theorem (C20F64: onChange_law / debounce_law / delta_law over ALL sequences of finite doubles with math.isclose as CPython computes it, "
+                "for whatever rel_tol / abs_tol the translator reads from the call in filters.py; C20F64Pin: relTol_is_zero pins rel_tol = 0 for the current source, hence changed_is_exceeds — for all doubles "
+                "changed <-> |fl(new - old)| > fl(0.1) — onChange_statement / debounce_statement / delta_statement, and changed_is_differs_of_exact: the statement's reading on the exact values wherever the "
+                "float subtraction is exact; large_step_delivered: 200000000.0 then 200000000.15 (failing input of the fixed rel_tol defect)) + correspondence (section f64: model vs filters.py on doubles from "
+                "5e-324 to 2^1000, statement judge wherever the compared pairs subtract exactly)",
+            "float tolerance boundary (inputs exactly 0.1 apart in decimal)": "theorem (decimal_boundary_*, tenths_agree_a..d: kernel-evaluated on the doubles nearest to k/10 for k = -60 .. 1059) + correspondence (modes tenths / hundredths / accumulated / ulp)",
         },
         public_routes=(
             "route audit: on_change, debounce, throttle, delta, aggregate, custom (4 predicates) and every ordered pair chained — driven; the RESULT of a filter call (what the "
             "event manager threads on) — C13 (Filter.stepR, c13fr); Filter.__eq__ — C13 (unsubscribe by a new filter object); several objects from one factory expression — driven; "
             "overlapping calls to one filter object — outside the quantifier (observed: aggregate loses what is added while its callback is suspended)."),
         assumptions=COMMON_ASSUME + [
-            "numbers reaching a filter are exactly representable (the harness uses multiples of 1/16 below 10^6); math.isclose's relative tolerance 1e-9 is then inert",
+            "the exact-sum laws (delta telescopes, aggregate conserves) are stated on numbers where every float operation is exact (multiples of 1/16 below 10^6); the change test itself is modelled on all "
+            "finite doubles (C20F64). Outside the statement's literal reading and NOT a defect: a pair whose exact difference exceeds 0.1 by less than half an ulp of the difference compares as unchanged, because "
+            "math.isclose subtracts in floating point (C20F.rounding_witness); NaN and infinities are not modelled",
             "dicts are carried in the model as opaque values with structural equality and no subtraction (the string of their key-sorted text), nested lists as lists of injective codes of the inner lists: the filters only use ==, `in` and - on values",
             "mixed kinds: a plain value FOLLOWING a Parameter is compared as Parameter.__eq__ does (the parameter's value against int() of a number / True / False, 1 / 0 for 'on' / 'off'; anything else counts as changed), a Parameter following a plain value always counts as changed (float.__ne__(Parameter) is the truthy NotImplemented), delta's difference in the two orders is a TypeError resp. value - int(old): all of this is in `changed` / `difference` / `differs` / `expectDelta` and exercised by the harness (value class param-mixed); other values of different kinds compare as changed (Python 3.12: truthy NotImplemented)",
             "in a chain a(b(cb)) both stages read the SAME clock value (chainStep hands the call time on): in the code each stage calls time.monotonic() itself, the inner one some microseconds later; the harness's patched clock does not move inside a call. Chain theorems that involve two clocked stages (throttle / aggregate inside a chain: chain_throttle_spacing, holds_chain) are modulo that; an inner reading later by d only makes the inner stage deliver earlier by at most d",
